@@ -23,6 +23,9 @@ def run_one(pid, tier, ctx, replay_key=None):
     rep = Report(pid, tier)
     try:
         mod.run(ctx, rep)
+        if tier == 'thorough' and not os.environ.get('NL_REPO'):
+            from rules import thorough
+            thorough.extra(ctx, rep, pid)
         code = finish(rep, ctx, mod.META)
     except CheckerError as e:
         print('CHECKER-ERROR property=%s %s' % (pid, e))
